@@ -5,6 +5,7 @@ import keyword
 from hypothesis import strategies as st
 
 from vf.evidence import Outcome
+from vf.gen import weighted
 from vf.world import World, Violation, settle
 
 from scales.asynchronous import AsyncResult
@@ -46,7 +47,7 @@ def _names():
       lambda s: not s[0].isdigit())
   deco = st.sampled_from(['{}', '_{}', '{}_', '_{}_', '{}'])
   mid = st.tuples(stem, stem).map(lambda t: t[0] + '_' + t[1])
-  return st.tuples(st.one_of(stem, stem, mid), deco).map(lambda t: t[1].format(t[0])).filter(
+  return st.tuples(weighted((2, stem), (1, mid)), deco).map(lambda t: t[1].format(t[0])).filter(
       lambda n: n not in _RESERVED and not n.startswith('__') and not n.endswith('__')
       and not n.endswith('_async') and n.isidentifier())
 
